@@ -361,10 +361,12 @@ pub fn check_scenario(c: &Scenario, st: &mut Stats) -> Result<(), String> {
 // ---------------------------------------------------------------------------------------
 
 fn page_spec_strategy() -> impl Strategy<Value = PageSpec> {
+    // ids are arbitrary; half of them come from {0, 1, 2} so that lists with repeated ids are common
+    let id = || prop_oneof![1 => 0u8..3, 1 => any::<u8>()];
     prop_oneof![
-        1 => any::<u8>().prop_map(PageSpec::Blank),
-        1 => any::<u8>().prop_map(PageSpec::Full),
-        3 => (any::<u8>(), any::<u64>()).prop_map(|(i, s)| PageSpec::Bits(i, s)),
+        1 => id().prop_map(PageSpec::Blank),
+        1 => id().prop_map(PageSpec::Full),
+        3 => (id(), any::<u64>()).prop_map(|(i, s)| PageSpec::Bits(i, s)),
         2 => any::<u64>().prop_map(PageSpec::Raw),
     ]
 }
@@ -422,8 +424,8 @@ pub fn run(ctx: &Ctx) {
                     prior: vec![],
                     use_configure_if_needed: cin,
                     rounds: vec![
-                        Round { pages: vec![PageSpec::Bits(1, i), PageSpec::Raw(i + 1)], calls: vec![true, false, false, true] },
-                        Round { pages: if variant % 3 == 0 { vec![] } else { vec![PageSpec::Full(9)] }, calls: vec![false, true] },
+                        Round { pages: vec![PageSpec::Bits(1, i), PageSpec::Raw(i + 1), PageSpec::Bits(1, i + 2)], calls: vec![true, false, false, true] },
+                        Round { pages: if variant % 3 == 0 { vec![] } else { vec![PageSpec::Full(9)] }, calls: vec![false, true, false, true] },
                     ],
                     epilogue: if variant == 5 { Some(((sign_type + 3) % 11, vec![PageSpec::Bits(2, 5)])) } else { None },
                     bystander_active: variant % 4 == 1,
